@@ -430,8 +430,9 @@ def _clip_po2_scale(scale: tf.Tensor, min_po2_exponent: Any,
                     max_po2_exponent: Any):
   """Clip power-of-two scales given minimum and maximum po2 exponenets."""
 
-  min_po2 = None if min_po2_exponent is None else 2**min_po2_exponent
-  max_po2 = None if max_po2_exponent is None else 2**max_po2_exponent
+  # 2.0 and not 2: numpy refuses to raise an integer to a negative numpy integer
+  min_po2 = None if min_po2_exponent is None else 2.0**min_po2_exponent
+  max_po2 = None if max_po2_exponent is None else 2.0**max_po2_exponent
   scale = K.clip(scale, min_value=min_po2, max_value=max_po2)
   return scale
 
